@@ -83,7 +83,8 @@ def run_case(case, policy, max_steps=6000):
         return {'kind': 'other', 'cls': type(e).__name__}
 
     with s.patched(fc, queue=fakes.LQueueModule(instr, ['txq', 'pending']), Event=fakes.levent_factory(instr),
-                   RLock=fakes.llock_factory(instr, ['_lock', 'reqlock']), mkthread=s.mkthread, time=s.time,
+                   RLock=fakes.llock_factory(instr, ['_lock', 'reqlock']),
+                   mkthread=lambda f, *a, **k: fakes.LHandle(instr, s.mkthread(f, *a, **k)), time=s.time,
                    current_thread=s.threading.current_thread, AsynConn=peer.connect):
         cls = _traced_client_class(case.get('fine', False))
         client = cls('fake:1', _Log())
@@ -254,20 +255,20 @@ def to_labels(obs):
     closing_threads = set()
     rel_hold = {}       # thread -> [entry names taken by its disconnect]
     rx = {'mode': None, 'line': False, 'found': None, 'fails': 0, 'removed': False, 'clean': False, 'set_for': None,
-          'requeue': []}
+          'requeue': [], 'took': []}
     has_lock = any(e[1] == 'lk.acq' and e[2] == 'reqlock' for e in ev)
     notes = []
 
     def rx_flush_lazy():
         # a line that never reached the matching code (event line / undecodable): dropped
         if rx['line'] and rx['mode'] is None:
-            labels.append(['rxMatch', None])
+            labels.append(['rxMatch', None, ('took', [])])
             rx['line'] = False
 
     def rx_cleanup_lazy():
         if rx['clean'] and not has_lock:
-            labels.append(['rxCleanup', False])
-            rx['clean'] = False
+            labels.append(['rxCleanup', False, ('took', rx['took'])])
+            rx.update(clean=False, took=[])
 
     for e in ev[start + 1:]:
         th, kind = e[0], e[1]
@@ -325,18 +326,19 @@ def to_labels(obs):
                 re_id = obs['sent_entries'][re_idx]
             labels.append(['peerEmit', action, spec, line_is_bad(text), ('re', re_idx)])
             labels.append(['rxRead'])
-            rx.update(line=True, mode=None, found=None, fails=0)
+            rx.update(line=True, mode=None, found=None, fails=0, took=[])
         elif kind == 'c.read.closed' and is_rx:
             labels.append(['closeBegin'])
             closing_threads.add(th)
         elif kind == 'l.pop' and is_rx:
             labels.append(['rxCleanPop'])
-            rx.update(clean=True, removed=False, mode='clean')
+            rx.update(clean=True, removed=False, mode='clean', took=[])
         elif kind == 'd.pop' and is_rx:
             if rx['mode'] == 'clean':
                 rx['removed'] = e[4] is not None
                 if not has_lock:
-                    labels.append(['rxCleanup', rx['removed']])
+                    rx['pending_label'] = ['rxCleanup', rx['removed'], ('took', rx['took'])]
+                    labels.append(rx['pending_label'])
                     rx.update(clean=False, mode=None)
             else:
                 rx['mode'] = 'match'
@@ -345,24 +347,26 @@ def to_labels(obs):
                 else:
                     rx['fails'] += 1
                 if not has_lock and (rx['found'] is not None or rx['fails'] >= 2):
-                    labels.append(['rxMatch', ('id', rx['found'])])
+                    rx['pending_label'] = ['rxMatch', ('id', rx['found']), ('took', rx['took'])]
+                    labels.append(rx['pending_label'])
                     rx['set_for'] = rx['found']
                     rx.update(line=False, mode=None)
         elif kind == 'q.get' and e[2] == 'pending':
             name, block = e[3], e[4]
             if is_rx and block:
                 rx['requeue'].append(name)
+                rx['took'].append(name)      # the list object is shared with the label of this section
             else:
                 labels.append(['closePending'])
                 rel_hold.setdefault(th, []).append(name)
         elif kind == 'lk.rel' and e[2] == 'reqlock' and is_rx:
             if rx['mode'] == 'clean':
-                labels.append(['rxCleanup', rx['removed']])
-                rx.update(clean=False, mode=None)
+                labels.append(['rxCleanup', rx['removed'], ('took', rx['took'])])
+                rx.update(clean=False, mode=None, took=[])
             elif rx['mode'] == 'match':
-                labels.append(['rxMatch', ('id', rx['found'])])
+                labels.append(['rxMatch', ('id', rx['found']), ('took', rx['took'])])
                 rx['set_for'] = rx['found']
-                rx.update(line=False, mode=None)
+                rx.update(line=False, mode=None, took=[])
         elif kind == 'd.popitem':
             if e[4] is not None:
                 labels.append(['closeActive'])
@@ -419,8 +423,10 @@ def to_labels(obs):
         if lb[0] == 'peerEmit':
             idx = lb[4][1]
             lb[4] = sent[idx] if idx is not None and idx < len(sent) else None
-        elif lb[0] == 'rxMatch' and isinstance(lb[1], tuple):
+        if lb[0] == 'rxMatch' and isinstance(lb[1], tuple):
             lb[1] = ids.get(lb[1][1]) if lb[1][1] is not None else None
+        if lb[0] in ('rxMatch', 'rxCleanup') and isinstance(lb[2], tuple):
+            lb[2] = [ids.get(n, 10 ** 6) for n in lb[2][1]]
     # callers
     text_seq = {}
     for q, text in seqs.items():
@@ -454,6 +460,137 @@ def to_labels(obs):
             rec['out'] = 'other'
         cobs.append(rec)
     return {'labels': labels, 'callers': cobs, 'closedAt': closed_at, 'ids': ids, 'seqs': seqs, 'notes': notes}
+
+
+def to_shutdown_acts(obs):
+    """fine-grained run -> acts of the shutdown-protocol model (Client/Shutdown.lean), each with the program point the
+    acting worker must reach; the conversion stops at the first reconnection attempt (connect() is not in the model)"""
+    ev = obs['events']
+    try:
+        start = next(i for i, e in enumerate(ev) if e[1] == 'start')
+    except StopIteration:
+        return None
+    acts = [{'a': ['tx', False], 'pc': 'get'}, {'a': ['rx', False], 'pc': 'read'}]   # where the workers are after connect()
+    ph = {}            # thread -> phase of its disconnect: 'd1' | 'mid' | 'd2done' | 'final' | None
+    tx_proc = [False]
+    rx_expect = ['read']
+    rx_skip = [False]   # the next read of _running by the rx thread is queue_request's (heartbeat), not the loop test
+    io_none = {}        # thread -> it read self.io as None at the start of disconnect()
+    rx_made = set()     # entries created by the rx thread itself (heartbeats); its other puts requeue parked requests
+
+    def step_of(th, pc=None):
+        if th.startswith('txthread'):
+            return {'a': ['tx', False], 'pc': pc}
+        if th.startswith('rxthread'):
+            return {'a': ['rx', False], 'pc': pc}
+        return None
+
+    def dstep(th, point, pc=None):
+        s = step_of(th, pc)
+        if s is None:
+            s = {'a': ['user', point], 'pc': pc}
+        acts.append(s)
+
+    for e in ev[start + 1:]:
+        th, kind = e[0], e[1]
+        if th == 'main0':
+            continue
+        is_tx, is_rx = th == 'txthread', th == 'rxthread'
+        if kind == 'ev.new' and is_rx:
+            rx_made.add(e[2])
+        if kind in ('c.new', 'ev.clear') or th.startswith('reconnect') or th in ('txthread2', 'rxthread2'):
+            break          # a connect() body begins (its first effect is _shutdown.clear()): outside the model
+        if kind == 'q.put' and e[2] == 'txq':
+            if e[3] is None:
+                dstep(th, 'd4', 'd5')
+            else:
+                acts.append({'a': ['put']})
+                if is_rx and e[3] in rx_made:
+                    rx_skip[0] = True
+        elif kind == 'a.set' and e[2] == '_running' and e[3] is False:
+            if is_tx or is_rx:
+                acts.append(step_of(th, 'd1'))
+            else:
+                acts.append({'a': ['userBegin']})
+            ph[th] = 'd1'
+        elif kind == 'q.get' and e[2] == 'txq' and e[4] is False:
+            if ph.get(th) == 'd1':
+                dstep(th, 'd1', 'd1')
+            elif ph.get(th) == 'final':
+                dstep(th, 'd11', 'd11')
+        elif kind == 'q.empty' and e[2] == 'txq' and e[3] is True and ph.get(th) == 'd1':
+            dstep(th, 'd1', 'd2')
+            ph[th] = 'mid'
+        elif kind == 'q.get.fail' and e[2] == 'txq':
+            if ph.get(th) == 'd1':
+                dstep(th, 'd1', 'd2')
+                ph[th] = 'mid'
+            elif ph.get(th) == 'final':
+                dstep(th, 'd11', 'fin')
+                ph[th] = None
+        elif kind == 'c.shutdown' and ph.get(th) == 'mid':
+            dstep(th, 'd2', 'd3')
+            ph[th] = 'd2done'
+        elif kind == 'a.get' and e[2] == 'io' and ph.get(th) == 'mid':
+            io_none[th] = e[3] is None
+        elif kind == 'a.get' and e[2] == '_txthread' and ph.get(th) in ('mid', 'd2done'):
+            if ph[th] == 'mid' and io_none.get(th, False):
+                dstep(th, 'd2', 'd3')       # `if io:` was false: nothing to shut down, the step has no visible effect
+            dstep(th, 'd3', 'd7' if e[3] is None else 'd4')
+            ph[th] = 'join'
+        elif kind == 'th.join' and e[2].startswith('txthread'):
+            dstep(th, 'd5', 'd6')
+        elif kind == 'th.join' and e[2].startswith('rxthread'):
+            dstep(th, 'd8', 'd9')
+        elif kind == 'a.set' and e[2] == '_txthread' and e[3] is None:
+            if is_tx and ph.get(th) is None:
+                if tx_proc[0]:
+                    acts.append({'a': ['tx', False], 'pc': 'check'})
+                    tx_proc[0] = False
+                acts.append({'a': ['tx', False], 'pc': 'd0'})
+            else:
+                dstep(th, 'd6', 'd7')
+        elif kind == 'a.get' and e[2] == '_rxthread' and ph.get(th) == 'join':
+            dstep(th, 'd7', 'd10' if e[3] is None else 'd8')
+        elif kind == 'a.set' and e[2] == '_rxthread' and e[3] is None:
+            if is_rx and ph.get(th) is None:
+                acts.append({'a': ['rx', False], 'pc': 'd0'})
+            else:
+                dstep(th, 'd9', 'd10')
+        elif kind == 'a.set' and e[2] == 'io' and e[3] is None and ph.get(th) == 'join':
+            dstep(th, 'd10', 'd11')
+            ph[th] = 'final'
+        elif kind == 'a.get' and e[2] == '_running':
+            if is_tx and ph.get(th) is None:
+                if tx_proc[0]:
+                    acts.append({'a': ['tx', False], 'pc': 'check'})
+                    tx_proc[0] = False
+                acts.append({'a': ['tx', False], 'pc': 'get' if e[3] else 'x0'})
+            elif is_rx and ph.get(th) is None and rx_skip[0]:
+                rx_skip[0] = False
+            elif is_rx and ph.get(th) is None and rx_expect[0] == 'check':
+                acts.append({'a': ['rx', False], 'pc': 'read' if e[3] else 'f0'})
+                rx_expect[0] = 'read' if e[3] else 'f0'
+        elif kind == 'q.get' and e[2] == 'txq' and e[4] is True and is_tx:
+            acts.append({'a': ['tx', False], 'pc': 'x0' if e[3] is None else 'proc'})
+            tx_proc[0] = e[3] is not None
+        elif kind in ('c.send', 'c.send.lost') and is_tx and tx_proc[0]:
+            acts.append({'a': ['tx', False], 'pc': 'check'})
+            tx_proc[0] = False
+        elif kind == 'c.send.fail' and is_tx and tx_proc[0]:
+            acts.append({'a': ['tx', True], 'pc': 'x0'})
+            tx_proc[0] = False
+        elif kind in ('c.read', 'c.read.none') and is_rx and rx_expect[0] == 'read':
+            acts.append({'a': ['rx', False], 'pc': 'check'})
+            rx_expect[0] = 'check'
+        elif kind == 'c.read.closed' and is_rx and rx_expect[0] == 'read':
+            acts.append({'a': ['drop']})
+            acts.append({'a': ['rx', True], 'pc': 'f0'})
+            rx_expect[0] = 'f0'
+    for a in acts:
+        if a.get('pc') is None:
+            a.pop('pc', None)
+    return acts
 
 
 def _uid_of_error(out):
@@ -603,7 +740,12 @@ def requests_for(case, obs, schedule):
     judge = dict(base, k='judge', callers=L['callers'], closedAt=L['closedAt'], slackMs=20,
                  threadErrors=sorted(f'{k}:{v}' for k, v in obs['errors'].items()), disconnectRaised=raised,
                  alive=obs['alive'], deadlock=obs['deadlock'], unterminated=obs['aborted'] is not None)
-    return [dict(base, k='replay', locked=True), judge], L
+    reqs = [dict(base, k='replay', locked=True), judge]
+    if case.get('fine'):
+        acts = to_shutdown_acts(obs)
+        if acts is not None:
+            reqs.append({'p': 'C11', 'k': 'shutdown_replay', 'acts': acts})
+    return reqs, L
 
 
 def known_actions():
@@ -611,11 +753,19 @@ def known_actions():
     return set(REQUEST2REPLY)
 
 
-def assess(case, schedule, obs, L, replay_ans, judge_ans, res, ctx):
+def assess(case, schedule, obs, L, replay_ans, judge_ans, res, ctx, shut_ans=None):
     """compare model and implementation, classify what the Lean monitors report; returns list of (sig, what)"""
     out = []
-    if 'driver_error' in replay_ans or 'driver_error' in judge_ans:
-        raise RuntimeError(f'driver error: {replay_ans} {judge_ans}')
+    if 'driver_error' in replay_ans or 'driver_error' in judge_ans or (shut_ans is not None and 'driver_error' in shut_ans):
+        raise RuntimeError(f'driver error: {replay_ans} {judge_ans} {shut_ans}')
+    if shut_ans is not None and (ctx is None or ctx.model_ok):
+        k = shut_ans['refused_at'] if shut_ans['refused_at'] is not None else shut_ans['mismatch_at']
+        if k is not None:
+            res.disagreements.append({
+                'model': ('shutdown model refuses act %d' % k) if shut_ans['refused_at'] is not None else
+                         ('shutdown model: after act %d the thread is at %s, the implementation at %s'
+                          % (k, shut_ans.get('got'), shut_ans.get('want'))),
+                'impl': {'state': shut_ans['final']}, 'case': {'case': case, 'schedule': schedule}})
     # ---- correspondence
     if ctx is None or ctx.model_ok:
         dis = None
@@ -689,7 +839,7 @@ def fails_with(case, schedule, sig, driver):
 
     class _R:
         disagreements = []
-    return any(s == sig for s, _ in assess(case, schedule, obs, L, a[0], a[1], _R(), None))
+    return any(s == sig for s, _ in assess(case, schedule, obs, L, a[0], a[1], _R(), None, a[2] if len(a) > 2 else None))
 
 
 def shrink(case, schedule, sig, driver):
@@ -715,28 +865,35 @@ def effective_schedule(obs):
 
 
 META = {
-    'level_text': 'Theorems over a labelled transition system of the repaired client (one action per shared access of the caller, '
-                  'tx, rx and disconnecting threads; any number of callers, requests, reply orders, interleavings, disconnects at any '
-                  'point): reply_matches_partial (requests of known actions get a line that answers them), no_double_delivery, '
-                  'no_parking, the table facts (REQUEST2REPLY injective, no reply action starts with error_) by decide over the '
-                  'generated table; counter-traces reply_matches_fails (F21, recorded), reply_fresh_fails, '
-                  'no_parking_unlocked_fails (the client before the repair).  wait_bounded, disconnect_releases_all and '
-                  'shutdown_terminates are NOT proved (statements only): they are checked by the Lean monitors on every run of the '
-                  'real SecopClient under the deterministic scheduler (systematic exploration with <= 2/3 preemptions, then random).',
-    'level_note': 'Trusted: Lean kernel + propext/Classical.choice/Quot.sound; queue.Queue / Event / RLock semantics are those of '
-                  'vlib.sched (modelled, not verified); sections under the request lock are atomic in the model; the conversion of '
-                  'the effect log to labels (harness) and the JSON glue.',
+    'level_text': 'Three models of the repaired SecopClient, theorems for all reachable states (any number of callers, requests, '
+                  'lines, any interleaving, disconnects at any point).  (1) matching LTS, one action per shared access of caller, '
+                  'tx, rx and disconnecting threads: reply_matches_partial (known actions), no_double_delivery, no_parking, '
+                  'disconnect_releases_all (a lone disconnect can run to its end and releases every queued/filed/parked request), '
+                  'table facts by decide over the generated REQUEST2REPLY.  (2) timed layer (clock, put/wait deadlines, bounded '
+                  'txq): wait_bounded (every caller returns by t_put + 3 s + 10 s; fairness assumed only for the callers\' own '
+                  'timers).  (3) shutdown protocol (program counters of tx, rx and any number of user threads in disconnect(), '
+                  '_txthread/_rxthread, markers, joins): no_join_cycle, shutdown_terminates (deadlock-freedom after any shutdown '
+                  'request: user, peer, failing send, or several).  Counter-traces: reply_matches_fails (F21, recorded), '
+                  'reply_fresh_fails, no_parking_unlocked_fails (the client before the repair).  Model (1) is replayed against '
+                  'every run of the real client under a deterministic scheduler; the Lean monitors judge every run.',
+    'level_note': 'Trusted: Lean kernel + propext/Classical.choice/Quot.sound; queue.Queue / Event / RLock / join semantics are '
+                  'those of vlib.sched (modelled, not verified); sections under the request lock are atomic in the model; the '
+                  'conversion of the effect log to labels (harness) and the JSON glue.  Models (2) and (3) are tied to the source by '
+                  'reading (anchored comments) and by the generated constants, not by replay; the reconnect thread / connect() are '
+                  'outside all three models and are covered by schedule exploration only.',
     'trusted': [
         'vlib.sched primitives behave like threading/queue (one thread runs at a time, yield before every primitive)',
         'code executed under SecopClient._request_lock is atomic with respect to the other sections under that lock',
         'the effect-log -> label conversion in harness/props/c11.py (checked by the replay: every label must be enabled)',
-        'fewer than 30 requests are queued or parked at any time (queues never block on put)',
+        'fewer than 30 requests are queued or parked at any time in the untimed model (the timed layer models the bound)',
+        'timed layer: a caller whose put/wait time-out expired takes its step before the clock moves on (tick is not enabled past a blocked caller\'s deadline)',
     ],
     'modelled_not_verified': [
         'queue.Queue, threading.Event, threading.RLock, Thread.join',
         'AsynConn (scripted FakeConn: readline/send/shutdown/disconnect with the error behaviour of a TCP socket)',
         'decode_msg / encode_msg_frame, the cache update of update-class messages, callbacks',
-        'connect() / _reconnect (exercised by the harness, not part of the model)',
+        'connect() / _reconnect / the cancel event of the reconnect thread (exercised by the harness, not part of any model)',
+        'timed layer: transcribed from the source, not replayed against runs',
     ],
     'assumptions': ['request identifiers are not "." (the rx thread maps "." to None)',
                     'replies carry no request id: a line that matches syntactically and arrives while the request is filed is its '
@@ -770,12 +927,15 @@ def run(ctx):
             if r is None:
                 res.count('connect-failed')
                 continue
+            meta.append((case, schedule, obs, r[1], len(reqs), len(r[0])))
             reqs += r[0]
-            meta.append((case, schedule, obs, r[1]))
         answers = ctx.driver.batch(reqs)
-        for j, (case, schedule, obs, L) in enumerate(meta):
+        for j, (case, schedule, obs, L, off, nreq) in enumerate(meta):
             res.traces += 1
-            found = assess(case, schedule, obs, L, answers[2 * j], answers[2 * j + 1], res, ctx)
+            if nreq > 2:
+                res.count('shutdown-model-replays')
+            found = assess(case, schedule, obs, L, answers[off], answers[off + 1], res, ctx,
+                           answers[off + 2] if nreq > 2 else None)
             kinds = sorted({c['out'] for c in L['callers']})
             labs = [lb[0] for lb in L['labels']]
             res.count('outcomes=' + '+'.join(kinds))
@@ -850,7 +1010,9 @@ def replay(ctx, rp):
     print('model   :', a[0])
     print('judge   :', {k: v for k, v in a[1].items() if k != 'final'})
     res = Result()
-    found = assess(case, schedule, obs, L, a[0], a[1], res, ctx)
+    if len(a) > 2:
+        print('shutdown:', a[2])
+    found = assess(case, schedule, obs, L, a[0], a[1], res, ctx, a[2] if len(a) > 2 else None)
     for sig, what in found:
         print('fails   :', sig, '-', what)
     for d in res.disagreements:
